@@ -48,7 +48,10 @@ MANIFEST = dict(
          "the module the memory entry point loads (which is compared with the abstract song). The file size those heuristics read is "
          "`bs.length` in Mod.read; the generated facts XmpModel/Gen/C19Size.lean (tools/c19_gen_size.py) + C19_size_is_stream_length "
          "state that every entry point stores module_data.size once, as the size of the stream it opened. "
-         "Generators: every numeric header field is drawn from its boundary set with decent probability (speed/tempo "
+         "Sample data comes in high-entropy and low-entropy shapes (silence, constants, short burst with a silent "
+         "tail, rare spikes) for every format; IT size class 4 stores such a sample last in the file through the 2.14/2.15 compressed "
+         "path with the narrowest codes (about one bit per sample: the loader's minimum-size test of compressed samples is at its bound), "
+         "8/16 bit, mono/stereo, one or two blocks. Generators: every numeric header field is drawn from its boundary set with decent probability (speed/tempo "
          "{1,2,31,32,125,254,255}, volume/pan bytes {0,1,63,64,127,128,255}, sample rates 0..2^32-1 extremes, sample lengths "
          "1/2/odd, order-list lengths at the maxima) and size class 9 writes the formats' maximum counts with tiny contents "
          "(MOD 128 patterns with order value 127, S3M 254 patterns/255 orders/255 instruments, XM 256 patterns/256 orders/255 "
@@ -339,7 +342,10 @@ def run(ck):
         # orders / 255 instruments, XM 256 patterns / 256 orders / 255 instruments / 256 rows, IT 200 patterns / 256 orders /
         # 255 samples and instruments / 200 rows
         nbig = {"quick": (2, 1, 3, 4), "thorough": (6, 3, 12, 16)}[ck.tier]
-        for cls, cnt in ((5, nbig[0]), (6, nbig[1]), (9, nbig[3])) + (((3, nbig[2]),) if fmt == "it" else ()):
+        # IT only: multi-block compressed samples (3); highly compressible PCM (silence, constants, silent tails) through the
+        # IT 2.14 / 2.15 compressed path with the narrowest codes, stored last in the file (4)
+        nquiet = {"quick": 10, "thorough": 40}[ck.tier]
+        for cls, cnt in ((5, nbig[0]), (6, nbig[1]), (9, nbig[3])) + (((3, nbig[2]), (4, nquiet)) if fmt == "it" else ()):
             for j in range(cnt):
                 reqs.append("gen %s %s-s%d-%d %d %d" % (fmt, fmt, cls, j, ck.seed * 100003 + 31 * j + cls, cls))
         if fmt == "xm":
@@ -394,8 +400,9 @@ def run(ck):
             ck.count(key, nontrivial=nontrivial)
             bump(fmt + "_oracle_cases")
             sp = (meta.get("opts") or "").split(" ")[0]
-            if sp in ("special=3", "special=5", "special=6", "special=9"):
-                bump(fmt + "_oracle_" + {"special=3": "multiblock_compressed", "special=5": "samples_beyond_64KiB",
+            if sp in ("special=3", "special=4", "special=5", "special=6", "special=9"):
+                bump(fmt + "_oracle_" + {"special=3": "multiblock_compressed", "special=4": "compressible_last_sample",
+                                         "special=5": "samples_beyond_64KiB",
                                          "special=6": "samples_beyond_1MiB", "special=9": "format_maxima"}[sp])
             bump(fmt + "_oracle_bytes", len(data))
             ck.sample({"fmt": fmt, "id": cid, "opts": meta.get("opts"), "size": len(data)}, limit=6)
